@@ -21,7 +21,10 @@ HEADER = ("From DV Require Import Model.PyPrims Model.C19Model.\n"
 
 SCRATCH = "/var/tmp/dv-C19"
 
-DTYPES = ["dna", "rna", "nucleotide", "protein", "standard", "restriction", "infinite", "continuous"]
+# "generic": the plain CharacterMatrix base class (cells are arbitrary values; its row type is the base
+# CharacterDataSequence, so __setitem__ adopts a given row object instead of converting it)
+DTYPES = ["dna", "rna", "nucleotide", "protein", "standard", "restriction", "infinite", "continuous", "generic", "generic"]
+VALUED = ("continuous", "generic")
 LABELS = ["a", "A", "b", "a_002", "A_002", "a_003", "b_002", "locus000", "locus001", "LOCUS001",
           "locus000_002", "x y"]
 
@@ -34,7 +37,8 @@ def _cls(dtype):
             "standard": dendropy.StandardCharacterMatrix,
             "restriction": dendropy.RestrictionSitesCharacterMatrix,
             "infinite": dendropy.InfiniteSitesCharacterMatrix,
-            "continuous": dendropy.ContinuousCharacterMatrix}[dtype]
+            "continuous": dendropy.ContinuousCharacterMatrix,
+            "generic": dendropy.CharacterMatrix}[dtype]
 
 
 _syms = {}
@@ -42,7 +46,7 @@ _syms = {}
 
 def symbols(dtype):
     """symbol table of the data type: cell k <-> k-th state of the alphabet (str)"""
-    if dtype == "continuous":
+    if dtype in VALUED:
         return None
     if dtype not in _syms:
         import dendropy
@@ -53,7 +57,7 @@ def symbols(dtype):
 
 
 def ncell(dtype):
-    return 9 if dtype == "continuous" else min(len(symbols(dtype)), 9)
+    return 9 if dtype in VALUED else min(len(symbols(dtype)), 9)
 
 
 # ----------------------------------------------------------------------------
@@ -237,7 +241,7 @@ class Env:
             self.ms.append(m)
 
     def cells(self, m, cs):
-        if self.dtype == "continuous":
+        if self.dtype in VALUED:
             return [None if c < 0 else c for c in cs]
         states = list(m.default_state_alphabet)
         return [None if c < 0 else states[c] for c in cs]
@@ -248,7 +252,7 @@ class Env:
     def cell_obs(self, c):
         if c is None:
             return -1
-        if self.dtype == "continuous":
+        if self.dtype in VALUED:
             return int(c)
         return self.syms.index(str(c))
 
@@ -285,7 +289,7 @@ class Env:
 
     def text(self, m):
         """serialisation of a matrix in iteration order (fasta); Skip when it cannot be written"""
-        if self.dtype == "continuous" or len(m) == 0:
+        if self.dtype in VALUED or len(m) == 0:
             raise Skip()
         out = []
         for t, s in m.items():
@@ -848,9 +852,22 @@ def probe_cases():
     oracle say every sequence is doubled), and concatenation of equal labels / the same object (F12)"""
     m = {"ns": 0, "label": "a", "rows": [[1, [0, 1]], [0, [1]]], "subs": []}
     res = []
-    for dtype in ("dna", "standard", "continuous"):
+    for dtype in ("dna", "standard", "continuous", "generic"):
         for op in (["ExtendMatrix", 0, 0], ["ExtendSeqs", 0, 0, False], ["ExtendSeqs", 0, 0, True]):
             res.append({"dtype": dtype, "nss": [[0, [0, 1]]], "init": [m], "ops": [op, ["Fill", 0, 0, None, True]]})
+    # rows created by fill_taxa / pack must be separate objects: fill several missing taxa, then grow them
+    # row-wise from another matrix (the plain CharacterMatrix adopts a given row object as it is)
+    part = {"ns": 0, "label": "a", "rows": [[0, [1, 2, 3]], [1, [4, 5, 6]]], "subs": []}
+    rest = {"ns": 0, "label": "b", "rows": [[2, [7]], [3, [8, 1]]], "subs": []}
+    for dtype in DTYPES[:-1]:
+        k = ncell(dtype)
+        part = dict(part, rows=[[t, [c % k for c in cs]] for t, cs in part["rows"]])
+        rest = dict(rest, rows=[[t, [c % k for c in cs]] for t, cs in rest["rows"]])
+        for first in (["FillTaxa", 0], ["Pack", 0, 0, None, True], ["Pack", 0, -1, 5, False]):
+            for second in (["ExtendSeqs", 0, 1, False], ["ExtendSeqs", 0, 1, True], ["ExtendMatrix", 0, 1],
+                           ["UpdateSeqs", 0, 1]):
+                res.append({"dtype": dtype, "nss": [[0, [0, 1, 2, 3]]], "init": [part, rest],
+                            "ops": [first, second, ["ExportIdx", 0, [0, 3]], ["Fill", 0, 0, None, True]]})
     full = {"ns": 0, "label": "a", "rows": [[1, [0, 1]], [0, [1, 1]]], "subs": []}
     res.append({"dtype": "dna", "nss": [[0, [0, 1]]], "init": [full, dict(full, label="A")],
                 "ops": [["Concat", [0, 1, 0, 0]], ["ExportSub", 2, "a_003"]]})
